@@ -275,3 +275,52 @@ Theorem refines_parse : forall s g e a b a',
   refines s g -> emit s e a = Some (b, a') ->
   forall rest, parse g a (b ++ rest) = Some (a', rest).
 Proof. intros. eapply fmt_roundtrip. apply H. eassumption. Qed.
+
+(* as [refines_guard_if], the untaken branch being an inferred value *)
+Lemma refines_guard_if_set : forall p c1 c2 s1 g1 k v1 v2,
+  (forall a, p a = true -> c1 a = c2 a) -> refines s1 g1 ->
+  (forall a, p a = true -> v1 a = v2 a) ->
+  refines (Assert p ;; If c1 s1 (Set_ k v1)) (If c2 g1 (Set_ k v2)).
+Proof.
+  unfold refines. intros p c1 c2 s1 g1 k v1 v2 Hc H1 Hv e a b a' He. cbn [emit] in *.
+  destruct (p a) eqn:P; try discriminate. rewrite <- (Hc _ P).
+  destruct (c1 a).
+  - destruct (emit s1 e a) as [[b2 a2]|] eqn:E2; try discriminate.
+    cbn [app] in He. rewrite (H1 _ _ _ _ E2). exact He.
+  - cbn [app] in He. rewrite <- (Hv _ P). exact He.
+Qed.
+
+(* ---------------------------------------------------------------- bytes <-> bits *)
+Lemma byte_bits_val : forall b7 b6 b5 b4 b3 b2 b1 b0 : bool,
+  byte_bits 8 (bits_val [b7; b6; b5; b4; b3; b2; b1; b0] 0) = [b7; b6; b5; b4; b3; b2; b1; b0].
+Proof. destruct b7, b6, b5, b4, b3, b2, b1, b0; reflexivity. Qed.
+
+Lemma bytes_to_bits_pack : forall n bs,
+  length bs = (8 * n)%nat -> bytes_to_bits (pack n bs) = bs.
+Proof.
+  induction n; intros bs H.
+  - destruct bs; cbn in *; try discriminate; auto.
+  - do 8 (destruct bs as [|? bs]; [cbn in H; lia|]).
+    cbn [pack firstn skipn bytes_to_bits]. rewrite byte_bits_val.
+    rewrite IHn by (cbn [length] in H; lia). reflexivity.
+Qed.
+
+Ltac Zify.zify_post_hook ::= Z.div_mod_to_equations.
+
+Lemma pad8_length : forall bs, exists n, length (pad8 bs) = (8 * n)%nat /\ Nat.div (length (pad8 bs)) 8 = n.
+Proof.
+  intros bs. unfold pad8. rewrite app_length, repeat_length.
+  set (L := length bs).
+  exists (Nat.div (L + Z.to_nat ((- Z.of_nat L) mod 8)) 8). split; auto.
+  assert (H := Nat.div_mod (L + Z.to_nat ((- Z.of_nat L) mod 8)) 8).
+  assert (Hm : ((L + Z.to_nat ((- Z.of_nat L) mod 8)) mod 8 = 0)%nat).
+  { apply Nat2Z.inj. rewrite Nat2Z.inj_mod. rewrite Nat2Z.inj_add, Z2Nat.id by (apply Z.mod_pos_bound; lia).
+    cbn [Z.of_nat]. lia. }
+  lia.
+Qed.
+
+Theorem bytes_to_bits_to_bytes : forall bs, bytes_to_bits (bits_to_bytes bs) = pad8 bs.
+Proof.
+  intros bs. unfold bits_to_bytes. destruct (pad8_length bs) as [n [H1 H2]].
+  rewrite H2. apply bytes_to_bits_pack. exact H1.
+Qed.
